@@ -59,6 +59,19 @@ def gen(rng, tier):
             c["upper"] = None if r < 0.6 else str(hi + rng.randint(0, 3))
             if rng.random() < 0.05:
                 c["lower"], c["upper"] = str(hi + 1), str(lo - 1)
+            r2 = rng.random()
+            if r2 < 0.12:
+                # exactly one bound given: a valid one, or one on the wrong side of the data
+                which = rng.choice(["lower", "upper"])
+                bad = rng.random() < 0.5
+                c["lower"], c["upper"] = None, None
+                if which == "lower":
+                    c["lower"] = str(hi + rng.randint(1, 3)) if bad else str(lo - rng.randint(0, 2))
+                else:
+                    c["upper"] = str(lo - rng.randint(1, 3)) if bad else str(hi + rng.randint(0, 2))
+                if rng.random() < 0.6:
+                    # no inner knot at all: df = degree (+ 1 with an intercept)
+                    c["df"] = max(0, c["degree"]) + (1 if c["intercept"] else 0)
             c["knots"] = None
             if rng.random() < 0.3:
                 # explicit interior knots: any order, inside the bounds (sometimes not), df usually omitted
